@@ -44,6 +44,7 @@ def run(chk):
     chk.configs = cfgs
     a, mm = Lin.sym(("param", "a")), Lin.sym(("param", "m"))
     euclid = {}
+    euclid_nodes = {}
     for cfg in cfgs:
         W = wcfg(cfg)
         q = "numbertheory:inverse_mod"
@@ -66,12 +67,35 @@ def run(chk):
         if loops:
             txt = [norm_text(s).replace("mpz(", "(") for s in f.node.body if not (isinstance(s, ast.Expr) and isinstance(s.value, ast.Constant))]
             euclid[cfg] = [t for t in txt if not t.startswith("a = ") and not t.startswith("m = ")]
-    if len(euclid) == 2:
-        (c1, t1), (c2, t2) = sorted(euclid.items())
-        norm = lambda ts: [t.replace("(1)", "1").replace("(0)", "0") for t in ts]
-        chk.ob("R15.1", "Euclid variants (%s, %s) perform the same statements up to mpz wrapping" % (c1, c2), norm(t1) == norm(t2), loc="numbertheory:inverse_mod", key="C15|R15.1|siblings", detail="the two extended-Euclid variants differ: %s vs %s" % (norm(t1)[-3:], norm(t2)[-3:]))
+            euclid_nodes[cfg] = f.node
+    if len(euclid_nodes) == 2:
+        # one step of the extended Euclid loop, evaluated on symbolic values in both variants: the
+        # new (lm, low, hm, high) must be the same expressions of the old ones (mpz(...) wrappers are
+        # transparent); initialisation and result statements are compared as text
+        from sa import small
+        steps = {}
+        for cfg_, fn_ in sorted(euclid_nodes.items()):
+            lp = [n for n in ast.walk(fn_) if isinstance(n, ast.While)][0]
+            names_ = sorted({x.id for x in ast.walk(lp) if isinstance(x, ast.Name)} - {"mpz"})
+            env_ = {nm: small.Sym(nm) for nm in names_}
+            env_["mpz"] = lambda x: x
+            try:
+                small.run(lp.body, env_)
+            except small.Unsupported as e:
+                raise AnalysisError("inverse_mod (%s): the Euclid step uses a construct the symbolic comparison cannot follow (%s)" % (cfg_, e))
+            carried = sorted(x.id for st_ in lp.body for x in ast.walk(st_) if isinstance(x, ast.Name) and isinstance(x.ctx, ast.Store))
+            pre_ = [norm_text(s_).replace("mpz(", "(").replace("(1)", "1").replace("(0)", "0") for s_ in fn_.body if s_.lineno < lp.lineno and not (isinstance(s_, ast.Expr) and isinstance(s_.value, ast.Constant)) and not isinstance(s_, ast.If)
+                    and not norm_text(s_).startswith(("a = ", "m = "))]
+            post_ = [norm_text(s_).replace("mpz(", "(") for s_ in fn_.body if s_.lineno > lp.lineno]
+            steps[cfg_] = (norm_text(lp.test), {k: env_[k] for k in carried if k in ("lm", "low", "hm", "high") or True}, pre_, post_)
+        (c1, s1), (c2, s2) = sorted(steps.items())
+        live1 = {k: v for k, v in s1[1].items() if k in s2[1]}
+        live2 = {k: v for k, v in s2[1].items() if k in s1[1]}
+        same = s1[0] == s2[0] and live1 == live2 and len(live1) >= 4 and s1[2] == s2[2] and s1[3] == s2[3]
+        chk.ob("R15.1", "Euclid variants (%s, %s): same loop test, same symbolic step for %s, same initialisation and result" % (c1, c2, sorted(live1)), same, loc="numbertheory:inverse_mod", key="C15|R15.1|siblings",
+               detail="the two extended-Euclid variants differ: %s vs %s" % ((s1[0], s1[1], s1[2][-2:], s1[3]), (s2[0], s2[1], s2[2][-2:], s2[3])))
     else:
-        raise AnalysisError("expected two extended-Euclid variants of inverse_mod, found %s" % sorted(euclid))
+        raise AnalysisError("expected two extended-Euclid variants of inverse_mod, found %s" % sorted(euclid_nodes))
 
     # ---------------- R15.2
     W = world()
